@@ -122,6 +122,7 @@ def run(ctx):
             rounds.append((int(p[1]), d['valid'] == '1', ints(d['F']), ints(d['C'])))
     ctx.extra['scanned_tables'] = {'parallel': meta.get('parallel'), 'nonparallel': meta.get('nonparallel'), 'subsystem': meta.get('subsystem'), 'checks': tables}
     # ---- compare
+    impl_first = None
     first = None; neval = 0; ncalls = 0; worst = 0.0; nontrivial = 0; dist = {'mixes': nmix, 'thread_counts': threads, 'by_task': {'P': 0, 'N': 0}, 'modes': {}}
     if len(rounds) != 4 * len(plan):
         ctx.broken.append(('correspondence:driver', 'model printed %d rounds for %d planned sequences' % (len(rounds), len(plan))))
@@ -137,6 +138,13 @@ def run(ctx):
                 # (a) the model's multiset: every element exactly once (the theorem's [expected], evaluated on this interleaving)
                 if not valid or contributing != list(range(len(els))):
                     if first is None: first = ('model: round not valid or multiset %s is not every element once' % contributing, i, k, when, r)
+                # (b0) the property's own predicate on the implementation, independent of the model: the totals are the sum of the
+                # contributions of ALL enabled elements, whatever they declare and however many threads there are
+                if impl_first is None:
+                    for c in range(len(tot)):
+                        terms = [CON[(i, r, e)][c] for e in range(len(els))]; ref = math.fsum(terms); scale = math.fsum(abs(t) for t in terms)
+                        if abs(tot[c] - ref) > 64 * 2.2e-16 * scale + 1e-300:
+                            impl_first = (i, k, when, r, c, tot[c], ref); break
                 # (b) implementation totals = order-free sum of the per-element contributions over that multiset
                 ncomp = len(tot)
                 for c in range(ncomp):
@@ -163,8 +171,14 @@ def run(ctx):
     if first:
         why, i, k, when, r = first
         ctx.broken.append(('correspondence:totals', 'mix %d (%s) threads %d when %d realization %d: %s' % (i, ' '.join('%s%d%d' % e[:3] for e in mixes[i]), k, when, r, why)))
-        if why.startswith('implementation total'):
-            ctx.report('impl:totals-depend-on-threads:mix%d' % i, why, {'failing_input': 'MIX %s ; RUN threads=%d when=%d realization %d' % (mixes[i], k, when, r)})
+    if impl_first:
+        i, k, when, r, c, got, ref = impl_first; REAL = ['fresh state (cache invalid)', 'only u changed (cache valid)', 'q changed (cache invalid)', 'only u changed (cache valid)']
+        desc = ' '.join('%s(par=%d,pos=%d,coef=%r)' % e for e in mixes[i])
+        if not first: ctx.broken.append(('correspondence:totals', 'implementation totals differ from the sum of all element contributions'))
+        ctx.report('impl:totals-not-sum-of-contributions', 'force totals differ from the sum of the contributions of all enabled elements: mix [%s], %d threads, realization %d (%s), '
+                   'component %d: total %r, sum %r' % (desc, k, r, REAL[r], c, got, ref),
+                   {'failing_input': 'MIX 0 %d %s ; RUN 0 %d %d ; realization %d' % (len(mixes[i]), ' '.join('%s %d %d %r' % e for e in mixes[i]), k, when, r),
+                    'replay_cmd': "printf 'MIX 0 %d %s\\nCON 0\\nRUN 0 %d %d\\n' | build/C17/C17_threads" % (len(mixes[i]), ' '.join('%s %d %d %r' % e for e in mixes[i]), k, when)})
     probes(ctx, exe, tables)
     ctx.assumptions += [
         'contributions are abstract in the model (an array is the list of element ids added to it); floating-point accumulation order differs between schedules, '
@@ -173,7 +187,7 @@ def run(ctx):
         'the C++ memory model below monitors and thread_local storage are not modelled; the hooks of ParallelExecutor.cpp are where DESIGN 2.6 says',
         'an element is assumed to touch only the arrays it is handed (a Custom element writing elsewhere is outside the table)',
         'ThreadSanitizer replay is not part of this check (the deterministic overlap probe through the executor hooks is used instead)']
-    if ctx.broken: search(ctx, exe)
+    if ctx.broken or ctx.tier == 'thorough': search(ctx, exe)
     ctx.finish()
 
 def probe(exe, th, when, withpos, withpar):
@@ -208,15 +222,52 @@ def probes(ctx, exe, tables):
         ctx.broken.append(('access-table:set-threads', 'setNumberOfThreads can replace the single-threaded executor of the non-parallel task (scanner)'))
 
 def search(ctx, exe):
-    """failing-input search on the implementation: the property's own predicates -- totals equal across thread counts (many repetitions,
-    so that a lost update has a chance to show) and the overlap probe over thread counts and modes"""
-    found = None; n = 0
+    """failing-input search on the implementation, the property's own predicates: (a) for EVERY mix of parallel / position-only flags on the
+    same elements and thread counts 1..16 the force totals of four realizations (fresh; only u changed = cache valid; q changed; only u changed)
+    equal those of the all-flags-off single-thread reference; (b) the overlap probe over thread counts and modes"""
+    import itertools
+    found = None; n = 0; ncmp = 0
+    combos = list(itertools.product((0, 1), repeat=2))          # (par, pos)
+    mixes = []
+    for fa in combos:
+        for fb in combos:
+            for fc in ((0, 0), (1, 1)):
+                # physics: element 0 and 1 position laws if declared pos else velocity laws; the declared flags never change the law
+                mixes.append([('C', fa[0], fa[1], 1.0), ('C', fb[0], fb[1], 2.0), ('D', 0, 0, 1.5), ('C', fc[0], fc[1], 0.7), ('K', 0, 1, 1.0)])
+    inp = []
+    for i, els in enumerate(mixes):
+        inp.append('MIX %d %d %s' % (i, len(els), ' '.join('%s %d %d %r' % e for e in els))); inp.append('REF %d' % i)
+        for k in (1, 2, 3, 4, 8, 16): inp.append('RUN %d %d 0' % (i, k))
+    rc, out, err = sh([exe], input='\n'.join(inp) + '\n', timeout=3000)
+    REF = {}; TOT = {}
+    for l in out.split('\n'):
+        p = l.split()
+        if p and p[0] == 'REF': REF[(int(p[1]), int(p[2]))] = hexs(p[3:])
+        elif p and p[0] == 'TOT': TOT[(int(p[1]), int(p[2]), int(p[4]))] = hexs(p[5:])
+    REAL = ['fresh state (cache invalid)', 'only u changed (cache valid)', 'q changed (cache invalid)', 'only u changed (cache valid)']
+    for (i, k, r) in sorted(TOT):
+        ref = REF.get((i, r)); tot = TOT[(i, k, r)]
+        if ref is None or len(ref) != len(tot): continue
+        scale = max(1.0, max(abs(x) for x in ref))
+        for c in range(len(tot)):
+            ncmp += 1
+            if abs(tot[c] - ref[c]) > 1e-12 * scale and found is None:
+                els = mixes[i]
+                found = ('MIX 0 %d %s ; RUN 0 %d 0 ; realization %d' % (len(els), ' '.join('%s %d %d %r' % e for e in els), k, r),
+                         'force totals of mix [%s] with %d threads differ from the all-flags-off single-thread reference at realization %d (%s): component %d = %r, reference %r'
+                         % (' '.join('%s(par=%d,pos=%d)' % e[:3] for e in els), k, r, REAL[r], c, tot[c], ref[c]),
+                         "printf 'MIX 0 %d %s\\nREF 0\\nRUN 0 %d 0\\n' | build/C17/C17_threads" % (len(els), ' '.join('%s %d %d %r' % e for e in els), k))
+    pfound = None
     for th in (2, 3, 4, 8, 16):
         for wp in (0, 1):
             for when in (0, 1):
                 p = probe(exe, th, when, wp, 1); n += 1
-                if p.get('overlap') == '1' and found is None: found = ('PROBE %d %d %d 1' % (th, when, wp), p)
-    ctx.extra['search'] = {'probes': n, 'failures': 0 if found is None else 1}
+                if p.get('overlap') == '1' and pfound is None: pfound = ('PROBE %d %d %d 1' % (th, when, wp), p)
+    ctx.extra['search'] = {'flag_mixes': len(mixes), 'thread_counts': [1, 2, 3, 4, 8, 16], 'total_components_compared_with_reference': ncmp, 'probes': n,
+                           'failures': (0 if found is None else 1) + (0 if pfound is None else 1), 'harness_rc': rc}
+    if rc != 0: ctx.broken.append(('search:harness', 'harness exit %d: %s' % (rc, err[-300:])))
     if found:
-        ctx.report('impl:race:' + found[0].replace(' ', '_'), 'overlap probe: two workers touch the same force array concurrently: %s' % found[1],
-                   {'failing_input': found[0], 'replay_cmd': 'echo "%s" | build/C17/C17_threads' % found[0]})
+        ctx.report('impl:totals-depend-on-flags', found[1], {'failing_input': found[0], 'replay_cmd': found[2]})
+    if pfound:
+        ctx.report('impl:race:' + pfound[0].replace(' ', '_'), 'overlap probe: two workers touch the same force array concurrently: %s' % pfound[1],
+                   {'failing_input': pfound[0], 'replay_cmd': 'echo "%s" | build/C17/C17_threads' % pfound[0]})
